@@ -1,7 +1,7 @@
 (* C19 — OPA returns uncorrelated series ordered by their own decorrelation time. Statements only. *)
 From Coq Require Import String ZArith List Bool Reals.
 From XV Require Import Base.Scalar Base.Sum Base.Mat Base.RInst Model.Opa Gen.T5opa
-  Proofs.C19_proofs Proofs.C19_real Proofs.C19_refute Proofs.C19_tie.
+  Proofs.C19_proofs Proofs.C19_real Proofs.C19_refute Proofs.C19_tie Proofs.C19_sym.
 Import ListNotations.
 
 (* the score series P = S (Ci U) are mutually uncorrelated with equal norms: P^T P = c I whenever
@@ -151,3 +151,21 @@ Theorem C19_products_match_source : forall (F : Type) (K : Ops F) (svd : bool) (
   o_Wphys o = opa_Wphys_src K p q k E (o_W o).
 Proof. exact tie_products. Qed.
 Print Assumptions C19_products_match_source.
+
+(* the whitening matrix the source builds, C0^(-1/2) = U0 diag(1/sqrt(s0)) U0^T (regenerated as opa_ci_src), is
+   symmetric, and it whitens C0 whenever (U0, s0) is a valid decomposition of C0 with an orthogonal U0 and positive
+   square roots: the two hypotheses `mT Ci = Ci` and `whiten_ok` carried by the theorems above are met by the source's
+   own Ci.  (Before the repair the source used inv(U0 diag(sqrt s0)) = diag(1/sqrt s0) U0^T, which is symmetric only
+   for U0 = +-I: with two principal components of equal variance the reported times lost sign and order.) *)
+Theorem C19_source_whitening_is_symmetric : forall (F : Type) (K : Ops F), FieldLaws K ->
+  forall (q : nat) (U0 : list (list F)) (s0 : list F), mT K q q (opa_ci_src K q U0 s0) = opa_ci_src K q U0 s0.
+Proof. exact (@ci_sym_symmetric). Qed.
+Print Assumptions C19_source_whitening_is_symmetric.
+
+Theorem C19_source_whitening_whitens : forall (F : Type) (K : Ops F), FieldLaws K ->
+  forall (q : nat) (C0 U0 : list (list F)) (s0 : list F), psd_factor_ok K q C0 U0 s0 ->
+  mmul K q q q (mT K q q U0) U0 = mI K q -> mmul K q q q U0 (mT K q q U0) = mI K q ->
+  (forall m, (m < q)%nat -> fsqrt K (vget K s0 m) <> f0 K) ->
+  whiten_ok K q C0 (opa_ci_src K q U0 s0).
+Proof. exact (@ci_sym_whitens). Qed.
+Print Assumptions C19_source_whitening_whitens.
